@@ -8,6 +8,7 @@ import (
 	"fmt"
 	"net"
 	"regexp"
+	"sort"
 	"strconv"
 	"strings"
 
@@ -333,11 +334,51 @@ func checkAccounting(prop string, p *PipePlan, obs *PipeObs, out *RunOut) {
 			}
 		}
 	}
+	// readings taken while traffic was in flight: monotone among themselves and
+	// with the quiescent readings around them (by scheduler sequence number)
+	{
+		type rd struct {
+			seq uint64
+			st  *FlowStats
+			mid bool
+		}
+		var all []rd
+		for _, sn := range obs.Snaps {
+			if sn.Err == "" {
+				all = append(all, rd{sn.Seq, sn.Stats, false})
+			}
+		}
+		for _, sn := range obs.MidSnaps {
+			if sn.Err == "" && sn.Stats != nil {
+				all = append(all, rd{sn.Seq, sn.Stats, true})
+				out.Probes["stats-readings-in-flight"]++
+			}
+		}
+		sort.SliceStable(all, func(a, b int) bool { return all[a].seq < all[b].seq })
+		for _, pr := range allProtos {
+			if !c.Enabled[pr] {
+				continue
+			}
+			var pu, pd uint64
+			for _, x := range all {
+				st := x.st.get(pr)
+				if st == nil {
+					continue
+				}
+				if st.UDPCount < pu || st.DecodedCount < pd {
+					out.Violations = append(out.Violations, Violation{Prop: prop, Class: "counter-not-monotone", Key: pr,
+						Msg: fmt.Sprintf("%s: the stats API reported UDPCount/DecodedCount %d/%d after it had reported %d/%d (reading in flight: %v)", pr, st.UDPCount, st.DecodedCount, pu, pd, x.mid)})
+					break
+				}
+				pu, pd = st.UDPCount, st.DecodedCount
+			}
+		}
+	}
 	// published multiset
 	idx := indexPublished(obs)
 	recv := receivedCount(obs)
-	want := map[string]int{}   // exact expectations
-	open := map[string]int{}   // upper bounds for hostile / ambiguous
+	want := map[string]int{} // exact expectations
+	open := map[string]int{} // upper bounds for hostile / ambiguous
 	for i := range p.Dels {
 		d := &p.Dels[i]
 		if recv[d.ID] == 0 {
@@ -632,7 +673,7 @@ func checkMirror(prop string, p *PipePlan, obs *PipeObs, out *RunOut) {
 	for k, g := range got {
 		if want[k] == 0 {
 			out.Violations = append(out.Violations, Violation{Prop: prop, Class: "mirror-unexpected", Key: k.proto,
-				Msg: fmt.Sprintf("a %s packet from %v with a %d-octet payload was mirrored but no such datagram was received", k.proto, net.IP(k.src), len(k.payload)), })
+				Msg: fmt.Sprintf("a %s packet from %v with a %d-octet payload was mirrored but no such datagram was received", k.proto, net.IP(k.src), len(k.payload))})
 			_ = g
 			return
 		}
